@@ -150,11 +150,14 @@ type streamRunner struct {
 	steps []Step
 	// StopAfter: deliver at most this many steps then return ctx-like error (0 = all)
 	onBlock func(s Step)
+	// a real block stream does not look at the request context between two blocks: with ignoreCtx the next block is handed
+	// to the pipeline although the context was cancelled meanwhile (fault placement: the cancellation lands inside a block)
+	ignoreCtx bool
 }
 
 func (r *streamRunner) Run(ctx context.Context) error {
 	for _, s := range r.steps {
-		if ctx.Err() != nil {
+		if ctx.Err() != nil && !r.ignoreCtx {
 			return ctx.Err()
 		}
 		blk, o := mkBlock(s)
@@ -197,6 +200,8 @@ type Config struct {
 	AfterLinearBlock func(s Step, pipe *pipeline.Pipeline)
 	ResolveCursor    pipeline.CursorResolver
 	DebugSnapshotFor []string
+	// Tier2AfterBlock is called by an in-process tier2 job after each block it has processed (fault placement).
+	Tier2AfterBlock func(req *pbssinternal.ProcessRangeRequest, s Step)
 	// FailWrite > 0: the n-th object write below Dir (tier1 and its tier2 jobs together, in the order they happen) fails
 	// once after consuming its body. Result.Writes counts the object writes below Dir either way.
 	FailWrite int
@@ -346,9 +351,15 @@ func RunTier2(ctx context.Context, cfg *Config, request *pbssinternal.ProcessRan
 		if !ok {
 			return nil, fmt.Errorf("tier2 stream handler is %T", h)
 		}
-		return &streamRunner{Shutter: shutter.New(), pipe: pipe, steps: cfg.Source.Steps(uint64(startBlockNum), stopBlockNum, cursor, true)}, nil
+		r := &streamRunner{Shutter: shutter.New(), pipe: pipe, steps: cfg.Source.Steps(uint64(startBlockNum), stopBlockNum, cursor, true)}
+		if cfg.Tier2AfterBlock != nil {
+			r.onBlock = func(s Step) { cfg.Tier2AfterBlock(request, s) }
+			r.ignoreCtx = true
+		}
+		return r, nil
 	}
 	svc := service.TestNewServiceTier2(false, factory)
+	service.WithBlockExecutionTimeout(3 * time.Minute)(svc) // the test constructor leaves it at zero: every block's context would be born expired
 	if respFunc == nil {
 		respFunc = func(substreams.ResponseFromAnyTier) error { return nil }
 	}
@@ -447,6 +458,7 @@ func Run(cfg Config) *Result {
 		return r, nil
 	}
 	svc := service.TestNewService(rc, cfg.Final, factory)
+	service.WithBlockExecutionTimeout(3 * time.Minute)(svc)
 	if cfg.ResolveCursor != nil {
 		service.VerifSetCursorResolver(svc, cfg.ResolveCursor)
 	}
